@@ -42,6 +42,14 @@ theorem Keeps.raise {I : HSt → Prop} (e : Exc) : Keeps I (HM.raise e : HM α) 
 
 theorem Keeps.modify {I : HSt → Prop} {f : HSt → HSt} (hf : ∀ s, I s → I (f s)) : Keeps I (HM.modify f) := ⟨fun s h => hf s h⟩
 
+/-- the continuation of a state read may assume whatever the invariant says about the object read -/
+theorem Keeps.bind_getMe {I : HSt → Prop} {f : XSa → HM β} (P : XSa → Prop) (hP : ∀ s, I s → P s.me)
+    (hf : ∀ x, P x → Keeps I (f x)) : Keeps I (getMe >>= f) := by
+  constructor
+  intro s h
+  rw [HM.bind_def]
+  exact (hf s.me (hP s h)).keep s h
+
 /-- what an `except` clause may select -/
 structure KeepsOpt (I : HSt → Prop) (o : Option (HM α)) : Prop where
   keep : ∀ k, o = some k → Keeps I k
